@@ -48,8 +48,8 @@ CLAIMED = {
     technique='Coq proof (rules derived from the denotation refinement of C07 + glob relation of C08) + rewrite-pair oracle on three finders + correspondence',
     design='6 C10'),
  'C12': dict(
-    text='Theorems (Finder level): find_one is the head of find, exists is non-emptiness (guard: no empty-string entry; the edge is proved as a _refuted example), as_sid=False strings are the strings of the as_sid=True results. Differential run + oracle on FindInList universes; Sid.exists / children / siblings over the file-system model are tied by the data-layer correspondence.',
-    note=TB + 'Sid-level clauses (children / siblings / parent exists) are correspondence-only so far.',
+    text='Theorems (Finder level): find_one is the head of find, exists is non-emptiness (guard: no empty-string entry; the edge is proved as a _refuted example), as_sid=False strings are the strings of the as_sid=True results; Sid level, over a data set materialised as a tree and for the levels served by the path finder: exists() is membership, children() / siblings() are exactly the members below / beside the Sid, what exists has an existing parent, a leaf has no children (decidable guards, evaluated on the live configuration on every run). Differential run + oracle on FindInList universes, and histories over real trees in one process (exists / children / siblings asked before and after creations).',
+    note=TB + 'Levels served by configured constants (project, type, assettype, state in the demo) are correspondence + oracle only.',
     technique='Coq proof + correspondence',
     design='6 C12'),
  'C13': dict(
@@ -93,8 +93,8 @@ CLAIMED = {
     technique='Coq proof by case analysis over crash prefixes + fault injection on the implementation',
     design='6 C17'),
  'C18': dict(
-    text='Theorems about the model of NextGetter / get_next: the successor of v+ddd is requested as v+(n+1) in 3 digits through get_with on the same Sid; first version v001; formatted versions parse back, are distinct and ordered like numbers; 4-digit numbers are not versions (empty Sid). Tie: generated trees with empty / dense / sparse / maximal version sets, every Sid level, "*" / ">" versions, create(get_new) chains; oracle from the property text + model correspondence of get_last / get_next / get_new through FindInAll.',
-    note=TB + 'PARTIAL: get_last / get_new over a tree are correspondence + oracle (they go through the finders); NextGetter is demo plug-in code with "version" / "v" / 3 digits built in.',
+    text='Theorems about the model of NextGetter / get_next: the successor of v+ddd is requested as v+(n+1) in 3 digits through get_with on the same Sid; first version v001; formatted versions parse back, are distinct and ordered like numbers; 4-digit numbers are not versions (empty Sid); get_last(k) over a data set materialised as a tree is the member agreeing with the Sid off k that carries the greatest value (numeric for versions), the empty Sid iff there is none (levels served by the path finder, decidable guards evaluated on the live configuration). Tie: generated trees with empty / dense / sparse / maximal version sets, every Sid level, "*" / ">" versions, create(get_new) chains; oracle from the property text + model correspondence of get_last / get_next / get_new through FindInAll.',
+    note=TB + 'get_new chains over a tree and state-level Sids (served by constants) are correspondence + oracle; NextGetter is demo plug-in code with "version" / "v" / 3 digits built in.',
     technique='Coq proof (version arithmetic, next_version) + correspondence + oracle on version workflows',
     design='6 C18'),
  'C19': dict(
